@@ -28,7 +28,14 @@ def ndigest(obj, with_flags=True, skip=()):
 
 
 def ndiff(d1, d2):
-    return _dg.digest_diff(d1, d2)
+    """Mutation check between a 'before' and an 'after' digest of the same object; tolerant of lazily filled private
+    cache attributes (see vlib.digest.parameter_mutation)."""
+    return _dg.parameter_mutation(d1, d2)
+
+
+def _private(path):
+    parts = [q for q in path.replace("]", "").replace("[", ".").split(".") if q]
+    return any(q.startswith("_") and not q.startswith("__") for q in parts)
 
 
 def nstate_diff(a, b, rtol=0.0, atol=0.0, skip=()):
@@ -39,6 +46,10 @@ def nstate_diff(a, b, rtol=0.0, atol=0.0, skip=()):
         if p not in mb:
             return "%s missing in second" % p
         y = mb[p]
+        if x is None and y is not None and p.rsplit(".", 1)[-1].startswith("_") and not p.endswith("._landmarks"):
+            # a private slot that the constructor leaves at None and a method fills lazily (a memo) is not observable
+            # state: `a` is the reference (freshly constructed) side, `b` the derived one
+            continue
         if isinstance(x, np.ndarray) or isinstance(y, np.ndarray):
             if not (isinstance(x, np.ndarray) and isinstance(y, np.ndarray)):
                 return "%s: %s vs %s" % (p, type(x).__name__, type(y).__name__)
@@ -63,6 +74,10 @@ def nstate_diff(a, b, rtol=0.0, atol=0.0, skip=()):
                 return "%s: %r vs %r" % (p, x, y)
     for p, _ in lb:
         if p not in ma:
+            # only on the derived side and private, with a private attribute on the way: created lazily by a method
+            # (the constructor of the reference side did not create it) - a memo, not observable state
+            if _private(p) and not any(q.startswith(p.split("._", 1)[0] + "._" + p.split("._", 1)[1].split(".")[0].split("[")[0]) for q in ma):
+                continue
             return "%s missing in first" % p
     return None
 
